@@ -61,7 +61,12 @@ def run(R, env):
                             a_ = pv[2][1]
                             po_ok = a_[0] == "param" or (a_[0] == "field" and a_[2] == "new_owner")
                     mt_ok = False
-                    if mt[0] == "agg" and mt[2] == "Some":
+                    from engine.analysis import forms as _forms12
+                    # (the deadline may be computed by a helper such as `claimable_from(&env)`: judged on its value)
+                    for mt in [fold(f_) for f_ in _forms12(prog, d[("owner_transfer_min_time",)], 2, op.get("assumptions", ()))]:
+                      if mt_ok:
+                        break
+                      if mt[0] == "agg" and mt[2] == "Some":
                         v = mt[3][0][2]
                         if v[0] == "call" and v[1] == "cosmwasm_std::Timestamp::from_seconds":
                             s_ = v[2][0]
